@@ -346,9 +346,29 @@ func c09Clique(p vbase.Params, r *vbase.Result, async bool) {
 			}
 		}
 		proposed := false
+		// the collector may leave B's view on a timeout certificate before the votes are in: B stays newer than its high QC,
+		// so a quorum of valid votes arriving afterwards must still give a QC
+		tcAt := -1
+		if rng.Chance(1, 4) {
+			tcAt = rng.Range(0, len(order))
+		}
+		deliverTC := func() {
+			tms := c.W.HonestTimeouts(B.View(), vk.IDs(nn)[1:q+1], func(hotstuff.ID) hotstuff.QuorumCert { return genQC }, false)
+			tc, err := c.W.M(2).Auth.CreateTimeoutCert(B.View(), tms)
+			if err != nil {
+				return
+			}
+			seq = append(seq, "TC(view of B)")
+			c.inject(2, subj, hotstuff.NewViewMsg{ID: 2, SyncInfo: hotstuff.NewSyncInfoWith(tc)})
+			quiesce()
+			r.Obs("cases_where_the_collector_left_the_view_by_a_tc", 1)
+		}
 		for k, oi := range order {
 			if c.Panic != nil || bad {
 				break
+			}
+			if k == tcAt && proposed {
+				deliverTC()
 			}
 			if subjectVotes && !proposed && k == propAt {
 				deliverProposal()
